@@ -1,1 +1,307 @@
--- property theorems of C15 (not built yet)
+/-
+  C15 — an input file builds exactly the documented object graph.
+
+  Theorems about `Taurex.Factory` (the definitions `driver_c15` executes) and about the tables
+  `Gen/Registry.lean` / `Gen/Docs.lean`, which are REGENERATED from /repo on every run: the table theorems
+  (`decide +kernel` over the whole table) are therefore re-proved against what the code and the documentation
+  say now.  General lemmas lift them: the real code iterates Python `set`s of classes, `lookup_unique` makes the
+  outcome independent of that order.
+-/
+import Proofs.C15Lemmas
+import TaurexModel.Gen.Registry
+import TaurexModel.Gen.Docs
+
+namespace Taurex.C15
+open Taurex.Factory Taurex.C15L Taurex.Gen
+
+/-! ## general theorems -/
+
+/-- Pairwise-disjoint keyword sets ⇒ the factory look-up does not depend on the order in which the class set is
+    iterated, and what it returns is the unique class claiming the keyword. -/
+theorem lookup_unique (cls cls' : List Klass) (kw : String) (hd : pairwiseDisjoint cls = true)
+    (hp : cls'.Perm cls) :
+    lookup cls' kw = lookup cls kw ∧ (∀ k, lookup cls kw = some k → candidates cls kw = [k]) := by
+  have hle := disjoint_candidates_le_one cls kw hd
+  constructor
+  · rw [lookup_eq_head_candidates, lookup_eq_head_candidates]
+    have hperm := (candidates_perm hp kw).symm
+    rw [perm_length_le_one_eq hperm hle]
+  · intro k hk
+    rw [lookup_eq_head_candidates] at hk
+    match hc : candidates cls kw, hle, hk with
+    | [], _, hk => simp [hc] at hk
+    | [x], _, hk => simp [hc] at hk; simp [hk]
+    | _ :: _ :: _, hle, _ => simp [hc] at hle
+
+example : pairwiseDisjoint Registry.temperature_classes = true ∧
+    Registry.temperature_classes.reverse.Perm Registry.temperature_classes ∧
+    (lookup Registry.temperature_classes "guillot").isSome = true :=
+  ⟨by decide +kernel, List.reverse_perm _, by decide +kernel⟩
+
+/-- `create_klass` is strict: it raises `KeyError` exactly when some config key is not a constructor keyword
+    (and names such a key); otherwise, for a config with unique keys (a dict), the result is the defaults in
+    their order, each overridden by the config value of the same key when there is one. -/
+theorem create_strict (defaults cfg : Config) :
+    ((∃ kv ∈ cfg, hasKey defaults kv.1 = false) ↔ ∃ k, createKlass defaults cfg = .error (.keyError k)) ∧
+    (∀ e, createKlass defaults cfg = .error e → ∃ kv ∈ cfg, hasKey defaults kv.1 = false ∧ e = .keyError kv.1) ∧
+    ((∀ kv ∈ cfg, hasKey defaults kv.1 = true) → (cfg.map (·.1)).Nodup →
+      createKlass defaults cfg =
+        .ok (defaults.map (fun kv => (kv.1, (cfg.lookup kv.1).getD kv.2)))) := by
+  refine ⟨⟨?_, ?_⟩, createKlass_error defaults cfg, ?_⟩
+  · rintro ⟨kv, hm, hk⟩; exact createKlass_unknown defaults cfg kv hm hk
+  · rintro ⟨k, hk⟩
+    obtain ⟨kv, hm, hf, _⟩ := createKlass_error defaults cfg _ hk
+    exact ⟨kv, hm, hf⟩
+  · intro hall hnd
+    rw [createKlass_ok defaults cfg hall, fold_dictSet defaults cfg hall hnd]
+
+example : createKlass [("T", .scalar (.int 1500))] [("T", .scalar (.dec false 14 2))] =
+      .ok [("T", .scalar (.dec false 14 2))] ∧
+    createKlass [("T", .scalar (.int 1500))] [("kappa_irr", .scalar (.dec false 1 (-2)))] =
+      .error (.keyError "kappa_irr") := by
+  constructor <;> decide +kernel
+
+/-- `transform` types every raw value as exactly one of: boolean, number, string, list of numbers, list of
+    strings (it is total: no raw string or string list makes it fail). -/
+theorem transform_total :
+    (∀ s : String, (∃ b, transform (.scalar (.str s)) = .scalar (.bool b)) ∨
+      (∃ n, transform (.scalar (.str s)) = .scalar n ∧ isNum n = true) ∨
+      transform (.scalar (.str s)) = .scalar (.str s)) ∧
+    (∀ l : List Scalar, (∃ ns, transform (.list l) = .list ns ∧ ∀ n ∈ ns, isNum n = true) ∨
+      transform (.list l) = .list l) := by
+  constructor
+  · intro s
+    unfold transform
+    split
+    · exact .inl ⟨true, rfl⟩
+    · split
+      · exact .inl ⟨false, rfl⟩
+      · cases h : parseNumber s with
+        | none => exact .inr (.inr rfl)
+        | some n => exact .inr (.inl ⟨n, rfl, parseNumberL_isNum _ _ h⟩)
+  · intro l
+    unfold transform
+    cases h : l.mapM toFloat with
+    | none => exact .inr rfl
+    | some ns => exact .inl ⟨ns, rfl, mapM_toFloat_isNum l ns h⟩
+
+/-- The branch order of `transform`: a word of the true list (any letter case) is `True`, a word of the false list
+    is `False`, anything else that `float()` accepts is that number, the rest stays a string; a list becomes a list
+    of numbers iff every element converts. -/
+theorem transform_cases (s : String) (l : List Scalar) :
+    (trueWords.contains (lower s) = true → transform (.scalar (.str s)) = .scalar (.bool true)) ∧
+    (trueWords.contains (lower s) = false → falseWords.contains (lower s) = true →
+      transform (.scalar (.str s)) = .scalar (.bool false)) ∧
+    (trueWords.contains (lower s) = false → falseWords.contains (lower s) = false →
+      transform (.scalar (.str s)) = match parseNumber s with
+        | some n => .scalar n
+        | none => .scalar (.str s)) ∧
+    (transform (.list l) = match l.mapM toFloat with
+        | some ns => .list ns
+        | none => .list l) := by
+  refine ⟨?_, ?_, ?_, rfl⟩
+  · intro h; simp [transform, h]
+  · intro h1 h2; simp [transform, h1, h2]
+  · intro h1 h2; simp [transform, h1, h2]
+
+example : transform (.scalar (.str "Yes")) = .scalar (.bool true) ∧
+    transform (.scalar (.str "hell-no")) = .scalar (.bool false) ∧
+    transform (.scalar (.str "1_0.5e-3")) = .scalar (.dec false 105 (-4)) ∧
+    transform (.scalar (.str "1__0")) = .scalar (.str "1__0") ∧
+    transform (.list [.str "1", .str "2.5"]) = .list [.dec false 1 0, .dec false 25 (-1)] ∧
+    transform (.list [.str "H2", .str "1"]) = .list [.str "H2", .str "1"] := by
+  refine ⟨?_, ?_, ?_, ?_, ?_, ?_⟩ <;> decide +kernel
+
+/-- `transform` is idempotent: applying it to an already typed value (as `ConfigObj.walk` would on a second pass)
+    changes nothing. -/
+theorem transform_idem (v : Value) : transform (transform v) = transform v := by
+  cases v with
+  | list l =>
+    cases h : l.mapM toFloat with
+    | none => simp [transform, h]
+    | some ns =>
+      have hn := mapM_toFloat_isNum l ns h
+      simp [transform, h, mapM_toFloat_fix ns hn]
+  | scalar sc =>
+    cases sc with
+    | str s =>
+      rcases transform_total.1 s with ⟨b, hb⟩ | ⟨n, hn, hnum⟩ | hs
+      · rw [hb]; rfl
+      · rw [hn]; cases n <;> simp_all [isNum, transform]
+      · rw [hs, hs]
+    | none => rfl
+    | bool b => rfl
+    | int i => rfl
+    | dec a b c => rfl
+    | inf a => rfl
+    | nan => rfl
+  | other r => rfl
+  | ref w => rfl
+
+/-- `klass_field.split('+')`: joining the parts with `+` gives the selector back and no part contains `+`;
+    a selector with at least two parts whose last part names a class `base` and whose other parts name the
+    mixins `ms` (no mixin twice) resolves to the mixed class `(ms…, base)`. -/
+theorem mixin_split (sr : SectionReg) (customs : Customs) (sec field sel : String) (rest : Config)
+    (p q : String) (ps : List String) (base : Klass) (ms : List Klass)
+    (hc : lower sel ≠ "custom") (hparts : splitPlus (lower sel) = p :: q :: ps)
+    (hb : factory sr (lastOf (p :: q :: ps)) = .ok base)
+    (hm : (initOf (p :: q :: ps)).mapM (mixinFactory sr) = .ok ms)
+    (hd : hasDup (ms.map (·.path)) = false) (hf : hasKey rest field = false) :
+    (joinWith '+' (splitOnC '+' (lower sel).toList) = (lower sel).toList ∧
+      ∀ part ∈ splitOnC '+' (lower sel).toList, '+' ∉ part) ∧
+    determineKlass sr customs sec field ((field, .scalar (.str sel)) :: rest) = .ok (rest, .mixed ms base) := by
+  refine ⟨⟨join_splitOnC _ _, splitOnC_no_sep _ _⟩, ?_⟩
+  have hpop : popKey ((field, Value.scalar (.str sel)) :: rest) field = some (.scalar (.str sel), rest) := by
+    have hfilter : rest.filter (fun kv => kv.1 != field) = rest := by
+      rw [List.filter_eq_self]
+      intro kv hkv
+      have : ¬ (kv.1 = field) := by
+        intro he
+        have : hasKey rest field = true := by
+          simp only [hasKey, List.any_eq_true]; exact ⟨kv, hkv, by simp [he]⟩
+        rw [hf] at this; cases this
+      simpa using this
+    simp [popKey, List.lookup_cons, List.filter_cons, hfilter]
+  unfold determineKlass
+  rw [hpop]
+  simp only [hc, if_false, hparts, hb, hm, hd]
+  rfl
+
+example : determineKlass (Registry.registry.sec "temperature") [] "temperature" "profile_type"
+      [("profile_type", .scalar (.str "TempScalar+Isothermal")), ("T", .scalar (.dec false 1 3))]
+    = .ok ([("T", .scalar (.dec false 1 3))],
+        .mixed ((Registry.registry.sec "temperature").mixins.take 1) ((Registry.registry.sec "temperature").classes.getD 1 default)) := by
+  decide +kernel
+
+/-- An unknown selector is an error: when no class of the section claims the (lower-cased) selector — and it is
+    neither `custom` nor a `+` composite — `determine_klass` raises `NotImplementedError`; a selector that was typed
+    as a number / boolean / list raises `AttributeError`; a missing selector raises `KeyError`. -/
+theorem unknown_selector_error (sr : SectionReg) (customs : Customs) (sec field : String) (cfg : Config) :
+    (∀ sel one, cfg.lookup field = some (.scalar (.str sel)) → lower sel ≠ "custom" →
+      splitPlus (lower sel) = [one] → lookup sr.classes one = none →
+      determineKlass sr customs sec field cfg = .error (.notImplemented one)) ∧
+    (∀ v, cfg.lookup field = some v → (∀ s, v ≠ .scalar (.str s)) →
+      determineKlass sr customs sec field cfg = .error (.attrError field)) ∧
+    (cfg.lookup field = none → determineKlass sr customs sec field cfg = .error (.keyError field)) := by
+  refine ⟨?_, ?_, ?_⟩
+  · intro sel one hl hc hs hn
+    simp [determineKlass, popKey, hl, hc, hs, factory, hn, Except.map]
+  · intro v hl hv
+    unfold determineKlass
+    simp only [popKey, hl]
+    split
+    · next h => cases h
+    · next s c h => cases h; exact absurd rfl (hv s)
+    · rfl
+  · intro hl
+    simp [determineKlass, popKey, hl]
+
+example : determineKlass (Registry.registry.sec "temperature") [] "temperature" "profile_type"
+      [("profile_type", .scalar (.str "isothermall"))] = .error (.notImplemented "isothermall") := by
+  decide +kernel
+
+/-- An unknown key is an error, strict sections (temperature, pressure, chemistry, gas profiles; contributions):
+    for a plain class, a config key that is not a constructor keyword makes `create_profile` raise `KeyError`. -/
+theorem unknown_key_error_strict (sr : SectionReg) (customs : Customs) (sec field : String) (cfg cfg1 : Config)
+    (k : Klass) (kv : String × Value)
+    (hr : determineKlass sr customs sec field cfg = .ok (cfg1, .plain k))
+    (hm : kv ∈ cfg1) (hk : hasKey k.kwargs kv.1 = false) :
+    ∃ key, createProfile sr customs sec field cfg = .error (.keyError key) := by
+  obtain ⟨key, hkey⟩ := createKlass_unknown k.kwargs cfg1 kv hm hk
+  refine ⟨key, ?_⟩
+  simp [createProfile, hr, kwargDict, hkey, bind, Except.bind]
+
+/-- An unknown key is an error, `klass(**config)` sections (planet, star, optimizer, observation, instrument,
+    model): for a plain class without `**kwargs`, a key that is not a constructor parameter raises `TypeError`. -/
+theorem unknown_key_error_lenient (sr : SectionReg) (customs : Customs) (sec field : String) (cfg cfg1 : Config)
+    (k : Klass) (kv : String × Value)
+    (hr : determineKlass sr customs sec field cfg = .ok (cfg1, .plain k))
+    (hv : k.varkw = false) (hm : kv ∈ cfg1) (hk : k.args.contains kv.1 = false) :
+    ∃ key, createLenient sr customs sec field cfg = .error (.typeError key) := by
+  have : ∃ kv', cfg1.find? (fun kv => !(k.varkw || k.args.contains kv.1)) = some kv' := by
+    cases h : cfg1.find? (fun kv => !(k.varkw || k.args.contains kv.1)) with
+    | some kv' => exact ⟨kv', rfl⟩
+    | none =>
+      rw [List.find?_eq_none] at h
+      have := h kv hm
+      simp [hv, hk] at this
+  obtain ⟨kv', hkv'⟩ := this
+  refine ⟨kv'.1, ?_⟩
+  simp [createLenient, hr, instantiate, bindArgs, hkv', bind, Except.bind, Except.map]
+
+example : (createProfile (Registry.registry.sec "temperature") [] "temperature" "profile_type"
+      [("profile_type", .scalar (.str "guillot")), ("kappa_ir", .scalar (.dec false 1 (-2)))]
+      = .error (.keyError "kappa_ir")) ∧
+    (createLenient (Registry.registry.sec "star") [] "star" "star_type"
+      [("star_type", .scalar (.str "blackbody")), ("zzz", .scalar (.dec false 1 0))]
+      = .error (.typeError "zzz")) := by
+  constructor <;> decide +kernel
+
+/-! ## theorems over the regenerated tables -/
+
+/-- In every factory section (classes and mixins) no selector keyword is claimed by two classes. -/
+theorem registry_disjoint :
+    ∀ s ∈ Registry.registry, pairwiseDisjoint s.2.classes = true ∧ pairwiseDisjoint s.2.mixins = true := by
+  decide +kernel
+
+-- non-vacuity: the generated registry has every section, each with at least one class
+example : Registry.registry.map (·.1) = Registry.sectionNames ∧
+    (∀ s ∈ Registry.registry, s.2.classes ≠ []) := by decide +kernel
+
+/-- documented selectors that are known not to resolve (recorded in known_findings.txt, not repaired) -/
+def knownUnresolved : List (String × String) := [("gas", "twopoint")]
+
+/-- documented selectors of components that are not part of the package (plugins): not judged -/
+def pluginOnly : List (String × String) :=
+  [("chemistry", "ace"), ("chemistry", "equilibrium"), ("contribution", "BHMie")]
+
+/-- FULL STATEMENT (false today, see `twopoint_unresolved`): every documented selector of a component of the
+    package has exactly one candidate class in its section, and it is the documented class.
+    PROVED: the same for all documented selectors except the explicit list `knownUnresolved`. -/
+theorem documented_resolve_partial :
+    ∀ d ∈ Docs.selectors, d.inPackage = true → (d.sec, d.keyword) ∉ knownUnresolved →
+      resolvesTo Registry.registry d = true := by
+  decide +kernel
+
+/-- the recorded exception is real: `gas_type = twopoint` has no candidate among the discovered gas classes
+    (the day it is repaired this theorem fails and `knownUnresolved` must shrink) -/
+theorem twopoint_unresolved :
+    candidates (Registry.registry.sec "gas").classes "twopoint" = [] ∧
+    (∃ d ∈ Docs.selectors, (d.sec, d.keyword) = ("gas", "twopoint") ∧ d.inPackage = true) := by
+  decide +kernel
+
+/-- the documented selectors that are not judged are exactly the pinned plugin list (so that a class deleted from
+    the package cannot silently turn its documented selector into a "plugin") -/
+theorem plugin_selectors_pinned :
+    (Docs.selectors.filter (fun d => !d.inPackage)).map (fun d => (d.sec, d.keyword)) = pluginOnly := by
+  decide +kernel
+
+/-- Every documented selector, written as in the documentation in a section of its own, goes through
+    `determine_klass` to exactly the class the table look-up gives (lower-casing, no `+`, not `custom`). -/
+theorem documented_selector_builds :
+    ∀ d ∈ Docs.selectors, d.inPackage = true → (d.sec, d.keyword) ∉ knownUnresolved →
+      d.sec ≠ "prior" → d.sec ≠ "contribution" →
+      (match determineKlass (Registry.registry.sec d.sec) [] d.sec "field" [("field", .scalar (.str d.keyword))] with
+        | .ok ([], .plain k) => d.cls.all (· == k.path)
+        | _ => false) = true := by
+  decide +kernel
+
+/-- Every key of a documented "Keywords" table is accepted: it is a constructor keyword of the class its selector
+    resolves to, a key the parser consumes, or one of the `[Observation]` file keys. -/
+theorem documented_keys_accepted :
+    ∀ d ∈ Docs.keys, keyAccepted Registry.registry d = true := by
+  decide +kernel
+
+example : Docs.selectors.length ≥ 30 ∧ Docs.keys.length ≥ 60 := by decide +kernel
+
+def lenientSections : List String := ["planet", "star", "optimizer", "observation", "instrument", "model"]
+
+/-- In the sections built by `klass(**config)` no built-in class swallows unknown keys (`**kwargs`) and no
+    built-in mixin exists (a mixed class would drop unknown keys silently in `mixed_init`): together with
+    `unknown_key_error_lenient` every unknown key there is a `TypeError`. -/
+theorem lenient_sections_bind_strictly :
+    ∀ s ∈ lenientSections, (Registry.registry.sec s).mixins = [] ∧
+      ∀ k ∈ (Registry.registry.sec s).classes, k.varkw = false := by
+  decide +kernel
+
+end Taurex.C15
